@@ -97,6 +97,66 @@ func (c *Chain) Restart() {
 	c.W = &World{App: a, Enc: enc, ValSet: c.W.ValSet, ValPriv: c.W.ValPriv, ValAddr: c.W.ValAddr}
 }
 
+// DumpDB writes all key/value pairs of a node's database (what its data directory holds).
+func DumpDB(db dbm.DB) []byte {
+	it, err := db.Iterator(nil, nil)
+	if err != nil {
+		panic(err)
+	}
+	defer it.Close()
+	var kv [][2]string
+	for ; it.Valid(); it.Next() {
+		kv = append(kv, [2]string{base64.StdEncoding.EncodeToString(it.Key()), base64.StdEncoding.EncodeToString(it.Value())})
+	}
+	bz, _ := json.Marshal(kv)
+	return bz
+}
+
+// LoadDB is the inverse of DumpDB.
+func LoadDB(bz []byte) dbm.DB {
+	var kv [][2]string
+	if err := json.Unmarshal(bz, &kv); err != nil {
+		panic(err)
+	}
+	db := dbm.NewMemDB()
+	for _, e := range kv {
+		k, _ := base64.StdEncoding.DecodeString(e[0])
+		v, _ := base64.StdEncoding.DecodeString(e[1])
+		if err := db.Set(k, v); err != nil {
+			panic(err)
+		}
+	}
+	return db
+}
+
+// ResumeChain is a node process started over an existing data directory: the application is
+// constructed over the database and loads the last committed version; InitChain does not run in
+// this process.
+func ResumeChain(db dbm.DB, height int64, tm time.Time, flags NodeFlags) *Chain {
+	a, enc := newAppWith(db, flags)
+	w := &World{App: a, Enc: enc}
+	scratch, scratchEnc := newApp(dbm.NewMemDB())
+	_, valSet, valPriv := BuildGenesis(scratch, scratchEnc, GenesisSpec{}) // only for the deterministic validator identity
+	w.ValSet, w.ValPriv = valSet, valPriv
+	w.ValAddr = sdk.ValAddress(valSet.Validators[0].Address)
+	return &Chain{DB: db, App: a, W: w, Height: height, Time: tm, Flags: flags}
+}
+
+// RunBlocks executes blocks [from, to) of a concrete history on the chain.
+func (c *Chain) RunBlocks(h ConcreteHistory, from, to int) (out []BlockTrace) {
+	for i := from; i < to && i < len(h.Blocks); i++ {
+		b := h.Blocks[i]
+		bt := c.Begin(nsTime(b.TimeNs))
+		for _, t64 := range b.Txs {
+			bz, _ := base64.StdEncoding.DecodeString(t64)
+			c.Deliver(&bt, bz)
+		}
+		c.End(&bt)
+		out = append(out, bt)
+	}
+	return out
+}
+
 // ServeTraffic makes the node do what nodes do between blocks besides consensus: check and
 // simulate the transactions of the coming block (mempool admission, gas estimation) and answer
 // queries.  None of it is part of the replicated state machine.
